@@ -127,6 +127,9 @@ pub trait InternalSourceController: Sized + Send + 'static {
 
 mod kalman;
 
+#[cfg(pendulum_project_ntpd_rs_verif)]
+pub use kalman::verif_hook as kalman_verif_hook;
+
 pub use kalman::{
     KalmanClockController, KalmanControllerMessage, KalmanSourceController, KalmanSourceMessage,
     TwoWayKalmanSourceController, config::AlgorithmConfig,
